@@ -134,13 +134,18 @@ CLAIMS = {
                 "MRO: which class defines which hook, effective positions/weights/modulus/minuend/reverse) regenerated from the "
                 "live classes on every run and every method body fingerprinted; Spec/Bundesbank.v states the 39 methods in the "
                 "Bundesbank's vocabulary and is validated by Examples on the 60 valid / 10 invalid Bundesbank test numbers the "
-                "suite quotes. Proved: C07_only_account (the verdict is a function of method and account only). The implementation "
+                "suite quotes. Proved, for every ten-digit account number: the model's verdict under a method's registered class "
+                "equals the Bundesbank description's verdict, for 33 of the 39 methods - 00 01 02 03 04 05 06 07 10 11 13 14 15 18 19 "
+                "20 22 28 32 33 34 38 60 (C07_std: one theorem about the WeightedModulus template, Proofs/GermanFacts.v, plus the "
+                "obligation that each regenerated class row carries the Bundesbank parameters and overrides no hook), 08 09 63 99 "
+                "(wrappers), 88 26 25 16 23 91 (one extra rule each); not yet: 17 21 24 61 68 76 (stream-checked only). Also "
+                "C07_only_account (the verdict is a function of method and account only). The implementation "
                 "is compared with the extracted Bundesbank spec on random, boundary (literal-harvested) and check-digit-swept "
                 "accounts for every method, and with the model; DE IBANs through the public API for every distinct checksum_algo "
-                "of the registry and unlisted banks. Per-method equivalence theorems: see evidence obligation_names (partial). "
+                "of the registry and unlisted banks. "
                 "Found and fixed: methods 08, 11, 16, 23, 99 (five commits); open known finding: method 76 remainder 10.",
         "note": COMMON_NOTE + " Spec/Bundesbank.v is a hand transcription of the Bundesbank method descriptions (no network); retry clauses for omitted sub-account numbers (13, 63, 76) are deliberately excluded.",
-        "technique": "Coq model with generated class table + extracted Bundesbank spec as oracle + correspondence; per-method symbolic equivalence proofs where listed",
+        "technique": "Coq proof (template theorem + per-method obligations on the generated class table, 33/39 methods) + extracted Bundesbank spec as oracle + correspondence",
         "design_ref": "DESIGN.md §4 C07",
     },
     "C08": {
